@@ -45,7 +45,7 @@ def budget(tier):
 def strategy(tier):
     return st.builds(
         lambda g, f, a, b, cache, cp: {"g": g, "f": f, "unlink": [a % g["nv"], b % g["nv"]], "cache": cache, "copy": cp},
-        st.one_of(graphs.graph_descs(), graphs.graph_descs(), graphs.graph_descs(), graphs.eq_graph_descs()),
+        st.one_of(graphs.graph_descs(), graphs.graph_descs(classes=9, wide=True), graphs.graph_descs(classes=9, wide=True, min_v=2, min_e=2), graphs.eq_graph_descs()),
         graphs.edge_filter_specs,
         st.integers(0, 7),
         st.integers(0, 7),
@@ -103,7 +103,14 @@ def check_case(case):
 
 def _check_case(case):
     vs, ls = graphs.build(case["g"])
-    if case["g"].get("eq") or not case.get("copy"):
+    if case["g"].get("eq"):
+        return _check_world(case, vs, ls, query_only=False)
+    if ls and sum(case["unlink"]) % 3 == 0:
+        # query, re-assign a link end, then the full check on the changed graph (same objects)
+        _check_world(case, vs, ls, query_only=True)
+        k = case["unlink"][0] % len(ls)
+        ls[k].v2 = vs[case["unlink"][1] % len(vs)]
+    if not case.get("copy"):
         return _check_world(case, vs, ls, query_only=False)
     # query the world, copy it (deepcopy / pickle / nrpickler), then run the full check incl. unlink on the copy
     info = _check_world(case, vs, ls, query_only=True)
